@@ -10,7 +10,7 @@ ASSUMPTIONS = ["hex strings are Python str; a non-ASCII or non-hex str is only r
 RULE = ("hex spellings of byte strings: the regression corpus, every string of length 0..2 (all 65 793: every 16-bit value of the first CRC occurs), "
         " every single-bit flip of the signed frames of tests/test_api_packet_crc_signing.py shapes, strings that already end with "
         "their own signature (signed one to three times), every packet template of the sources rendered with random fields and with "
-        "its length field blank / stamped / arbitrary, the magic followed by a sweep of length-field values, random strings "
+        "its length field blank / stamped / arbitrary, the magic followed by a sweep of length-field values, calls with bytes / bytearray / None / garbage arguments followed by ordinary calls, four threads signing concurrently, random strings "
         "up to 4 KiB in lower/upper/mixed case, and a malformed stream (odd length, non-hex, blanks, non-ASCII); "
         "non-trivial = distinct well-formed hex of at least one byte")
 REQUIREMENT = ("sign(p) = p ++ hex(le16(c) ++ le16(crc(le16(c) ++ 0x30*32))) with c = crc(unhex p), CRC-16/CCITT poly 0x1021 "
@@ -87,8 +87,49 @@ def run_cases(stream, cs, out):
     lib.differential(out, stream, cs, io, mo, ex, lambda p: "sign(%r)" % (p if len(p) <= 64 else p[:60] + "...[%d chars]" % len(p)),
                      nontrivial=lambda p: len(p) >= 2 and wellformed(p), sample=lambda p: p[:96], classify=cls)
 
+def other_types_then_str(out, rnd):
+    """valid hex handed over as bytes / bytearray / memoryview (the signer takes str: the call may raise), each followed by ordinary
+    calls: what a refused or odd call leaves behind must not change the next signature"""
+    cs = []; io = []
+    for _ in range(60):
+        q = bytes(rnd.randrange(256) for _ in range(rnd.randrange(0, 90))).hex()
+        for conv in (bytes, bytearray, lambda b: memoryview(b)):
+            try: sign_packet_with_crc_key(conv(q.encode()))
+            except Exception: pass
+        for bad in (None, 12, ["fe"], q + "zz", "f"):
+            try: sign_packet_with_crc_key(bad)
+            except Exception: pass
+        p = bytes(rnd.randrange(256) for _ in range(rnd.randrange(0, 90))).hex(); cs.append(p); io.append(impl(p))
+    mo = lib.run_model([lib.req("sign", p) for p in cs]); ex = lib.run_model([lib.req("sign_spec", p) for p in cs])
+    lib.differential(out, "after-calls-with-other-argument-types", cs, io, mo, ex, lambda p: "sign(%r) after refused calls" % p[:60], nontrivial=lambda p: len(p) >= 2)
+
+
+def threads(out, rnd, rounds):
+    """four threads signing their own packets at the same time: every result is the one the same call gives alone"""
+    import threading
+    packets = [[bytes(rnd.randrange(256) for _ in range(rnd.randrange(1, 120))).hex() for _ in range(8)] for _ in range(4)]
+    want = {p: impl(p) for ps in packets for p in ps}; bad = []
+    def work(ps):
+        for k in range(rounds):
+            p = ps[k % len(ps)]; r = impl(p)
+            if r != want[p] and len(bad) < 5: bad.append((p, r))
+    ts = [threading.Thread(target=work, args=(ps,)) for ps in packets]
+    import sys; old = sys.getswitchinterval(); sys.setswitchinterval(1e-5)
+    try:
+        for t in ts: t.start()
+        for t in ts: t.join()
+    finally: sys.setswitchinterval(old)
+    cs = [p for ps in packets for p in ps]
+    io = [next((r for q, r in bad if q == p), want[p]) for p in cs]
+    lib.differential(out, "four-threads-signing-concurrently", cs, io, lib.run_model([lib.req("sign", p) for p in cs]), lib.run_model([lib.req("sign_spec", p) for p in cs]),
+                     lambda p: "sign(%r) while three other threads sign" % p[:60], nontrivial=lambda p: True)
+    out.stream("four-threads-signing-concurrently/calls", 4 * rounds)
+
+
 def run(tier, rnd, out):
     run_cases("sign", cases(tier, rnd), out)
+    other_types_then_str(out, rnd)
+    threads(out, rnd, 20000 if tier == "quick" else 300000)
     # the model's table-driven CRC against binascii.crc_hqx directly (the external call the model replaces)
     bufs = [bytes(rnd.randrange(256) for _ in range(rnd.randrange(0, 300))) for _ in range(300)]
     inits = [0x1021, 0, 0xffff] + [rnd.randrange(65536) for _ in range(297)]
